@@ -373,6 +373,22 @@ class TNMR:
         open(path, "wb").write(bytes(b))
         return c2
 
+    def redundant_patches(self, c):
+        """header fields that restate or qualify the sizes without entering the layout (points really acquired, first point,
+        acquisition points): (label, offset in the file, bytes).  Whatever they say, the samples of the DATA section belong where
+        `npts` puts them — an importer may refuse the file, never re-cut it silently."""
+        ext = list(c["ext"])
+        out = [("actual_npts-equal", 20 + 16, struct.pack("<4i", *ext))]
+        for k in range(4):
+            if ext[k] > 1:
+                a = list(ext); a[k] = max(1, ext[k] // 2)
+                out.append(("actual_npts[%d]-half" % k, 20 + 16, struct.pack("<4i", *a)))
+                a = list(ext); a[k] = ext[k] - 1
+                out.append(("actual_npts[%d]-minus1" % k, 20 + 16, struct.pack("<4i", *a)))
+        out.append(("acq_points-half", 20 + 32, struct.pack("<i", max(1, ext[0] // 2))))
+        out.append(("npts_start-one", 20 + 36, struct.pack("<4i", 1, 0, 0, 0)))
+        return out
+
 
 # =============================================================================== RS2D
 class RS2D:
